@@ -26,7 +26,8 @@ ASSUMPTIONS = [
     "three timing tests of the suite)",
     "a re-armed timer runs from the poll that observed the expiry (the handler cannot know the deadline passed earlier)",
     "the two waits documented as unimplemented inactivity handling end a run as excused_unimplemented_wait",
-    "any accepted File Data / Metadata PDU while the deferred procedure runs counts as progress (resets the count)",
+    "any accepted File Data PDU, and the Metadata PDU while it is missing, count as progress while the deferred procedure runs "
+    "(reset the count); a further copy of the Metadata PDU is ignored",
 ]
 BUDGET = {"quick": 30, "thorough": 900}
 
@@ -155,10 +156,17 @@ class RetryMonitor(Monitor):
         # --- deferred NAK procedure
         p = self.nak
         if p is None:
-            if pre == "SENDING_EOF_ACK_PDU" and post in ("WAITING_FOR_MISSING_DATA", "WAITING_FOR_METADATA") and rec.post.extra[3]:
+            if naks and rec.post.extra[3] and post == "SENDING_EOF_ACK_PDU" and rec.inb_kind == "EOF":
+                # the first sequence is issued (and the timer started) by a call that carries a further EOF PDU while
+                # the acknowledgement of the first one is being sent (both EOFs handed over in one tick of the main loop)
+                self.nak = p = Proc("nak", t + self.nak_ms)
+                w.probe("C04.nak_first_issue_on_second_eof")
+            elif pre == "SENDING_EOF_ACK_PDU" and post in ("WAITING_FOR_MISSING_DATA", "WAITING_FOR_METADATA") and rec.post.extra[3]:
                 self.nak = Proc("nak", t + self.nak_ms)
                 if not naks:
                     w.violate("C04.nak_first_issue", f"post={post}", "")
+        elif pre == "SENDING_EOF_ACK_PDU" and post == "SENDING_EOF_ACK_PDU":
+            pass  # still acknowledging
         else:
             if pre == "WAITING_FOR_METADATA" and post == "SENDING_EOF_ACK_PDU" and rec.inb_kind == "EOF":
                 # a re-sent EOF while the Metadata is still missing is acknowledged again and counts
@@ -180,8 +188,17 @@ class RetryMonitor(Monitor):
             elif rec.op == "sm" and rec.pre.step in ("WAITING_FOR_MISSING_DATA", "WAITING_FOR_METADATA", "SENDING_EOF_ACK_PDU"):
                 k = rec.inb_kind
                 stored_fd = k == "FD" and pre != "WAITING_FOR_METADATA"  # data before Metadata is not stored
-                if (stored_fd or k == "MD") and rec.exc is None:
-                    # progress (or at least activity): count and timer restart
+                # (a Metadata PDU is progress only while the Metadata is missing; a further copy is ignored)
+                if (stored_fd or (k == "MD" and pre in ("WAITING_FOR_METADATA", "SENDING_EOF_ACK_PDU"))) and rec.exc is None:
+                    # progress (or at least activity): count and timer restart - also when the PDU is handed over in
+                    # the very call that finds the timer expired (timer / PDU arrival race): no NAK sequence and no
+                    # fault is due in that call
+                    if t >= p.deadline:
+                        w.probe("C04.nak_progress_at_expired_timer")
+                    lim = [f for f in rec.faults if f[2] == NAK_LIMIT]
+                    if lim or (naks and not w.cfg.imm_nak):
+                        w.violate("C04.nak_action_on_progress", f"count={p.count} N={self.N_nak} naks={len(naks)} fault={bool(lim)} in={k} "
+                                  f"expired={t >= p.deadline}", f"t={t} deadline={p.deadline}")
                     p.count = 0
                     p.deadline = t + self.nak_ms
                     w.probe("C04.nak_progress_reset")
@@ -263,8 +280,20 @@ class RetryMonitor(Monitor):
         p.count += 1
         p.deadline = t + self.ack_ms
 
+    src_store_broken = False
+
     def on_call(self, w, rec) -> None:
         if rec.ent == "a" and rec.hk == "src":
+            if self.src_store_broken:
+                # the sender's filestore fails from the first EOF on (source file vanished): EOF PDUs cannot be rebuilt, so
+                # the step-by-step model is off for the sender; what remains is the bounded end (silent_peer_hangs) and
+                # the bound on copies
+                for e in rec.emitted:
+                    if e.kind == "EOF":
+                        self.copies[e.raw] = self.copies.get(e.raw, 0) + 1
+                if rec.vfs_rejects:
+                    self.expiries += 1
+                return
             self._sender(w, rec)
         elif rec.ent == "b" and rec.hk == "dst":
             self._receiver(w, rec)
@@ -352,7 +381,30 @@ def run_one(t):
             w.link.enabled = {"drop"}
             w.link.rate = (1, 4)
             w.link.budget = 1 + t.choose(2, "pre fault budget")
+        # timer / PDU arrival races: in a quarter of the runs both entities run a main loop with a period around the
+        # timer intervals, so that awaited PDUs are handed over in the call that also finds the timer expired
+        # a sixth of the runs: the source file vanishes from the sender's filestore once the EOF PDU was built (storage
+        # fault: read_data / calculate_checksum / file_size raise FileNotFoundError from then on; the user keeps calling)
+        if t.choose(6, "source file vanishes") == 5:
+            def vanish(who, op, path, *extra):
+                if who == "a" and mon.src_store_broken:
+                    w.link.fired["src_store_error"] = w.link.fired.get("src_store_error", 0) + 1
+                    return FileNotFoundError(str(path))
+                return None
+
+            class _Arm(Monitor):
+                def on_call(self, w2, rec):
+                    if rec.ent == "a" and rec.hk == "src" and any(e.kind == "EOF" for e in rec.emitted):
+                        mon.src_store_broken = True
+
+            w.fs_fault_x = vanish
+            w.monitors.append(_Arm())
         unit = max(cfg.ack_s, cfg.nak_s)
+        if t.choose(4, "ticked pacing") == 3:
+            from props.pops import ticked_pacing
+
+            ticked_pacing(w, t)
+            unit += 2 * w.tick_ms / 1000
         bound_ms = int((2 * cfg.ack_lim + cfg.nak_lim + 4) * unit * 1000) + 2000
         w.max_events = 30000
         w.max_t = 10_000_000
